@@ -12,7 +12,9 @@ is covered by a directed program: SELECT is READ-ONLY, APPEND/COPY/MOVE into it 
 """
 from __future__ import annotations
 import asyncio
+import json
 import random
+import re
 
 from .common import l3, wire, backends, imapresp
 from .common.report import Part, guarded
@@ -166,6 +168,105 @@ async def backend_readonly(part):
     await p.eof()
 
 
+async def maildir_readonly(part, r):
+    """maildir: messages a foreign writer (an MDA) put into new/ and cur/ - with and without an info suffix -, then a read-only selection that issues every
+    command such a selection may issue; another connection and the disk say whether anything changed (UIDs, flags, UIDNEXT, the uid list)"""
+    import os
+    import time
+    from pymap.imap import IMAPServer
+    base = backends.scratch_dir('pymap-verif-c12-')
+    layout = r.choice(['++', 'fs'])
+    case = dict(scenario='maildir-readonly', layout=layout)
+    try:
+        config, login = await backends.make_maildir(base, layout=layout, users=[('u', 'p', ())], bad_command_limit=None)
+        srv = IMAPServer(login, config)
+        w = wire.Client(srv)
+        await w.start()
+        await w.send(b'w LOGIN u p\r\n')
+        for k in range(r.randint(1, 2)):
+            await w.send(b'w APPEND INBOX (%s) {9+}\r\nA: %d\r\n\r\nx\r\n' % (r.choice([b'', b'\\Seen', b'\\Deleted']), k))
+        await w.send(b'w LOGOUT\r\n')
+        await w.finish()
+        inbox = os.path.join(base, 'u')
+        if not os.path.isdir(os.path.join(inbox, 'new')):
+            inbox = next(os.path.join(root) for root, dirs, files in os.walk(base) if 'new' in dirs and 'cur' in dirs)
+        delivered = []
+        for k in range(r.randint(1, 3)):
+            sub, suffix = r.choice([('new', ''), ('new', ''), ('cur', ':2,'), ('cur', ':2,S'), ('cur', ''), ('new', ':2,')])
+            name = f'{int(time.time())}.M{k}P{os.getpid()}Q{r.randrange(10 ** 6)}.host{suffix}'
+            with open(os.path.join(inbox, sub, name), 'wb') as f:
+                f.write(b'Subject: delivered %d\r\n\r\nbody\r\n' % k)
+            delivered.append(sub + '/' + name)
+        case['delivered'] = delivered
+        # a first look registers the deliveries (that is the delivery being noticed, not a read-only command changing something)
+        p0 = wire.Client(srv)
+        await p0.start()
+        await p0.send(b'p LOGIN u p\r\n')
+        await p0.send(b'p SELECT INBOX\r\n')
+        await p0.send(b'p CLOSE\r\n') if r.random() < 0.5 else await p0.send(b'p EXAMINE INBOX\r\n')
+        await p0.send(b'p LOGOUT\r\n')
+        await p0.finish()
+
+        async def look():
+            p = wire.Client(srv)
+            await p.start()
+            await p.send(b'p LOGIN u p\r\n')
+            st = await p.send(b'p STATUS INBOX (MESSAGES UIDNEXT UIDVALIDITY)\r\n')
+            await p.send(b'p EXAMINE INBOX\r\n')
+            raw = await p.send(b'p UID FETCH 1:* (UID FLAGS RFC822.SIZE)\r\n')
+            await p.send(b'p LOGOUT\r\n')
+            await p.finish()
+            items = []
+            for resp in imapresp.parse(raw):
+                f = imapresp.fetch_items(resp)
+                if f:
+                    items.append((int(f[1][b'UID'].val), tuple(sorted(imapresp.atom(x).lower() for x in f[1][b'FLAGS'] if imapresp.atom(x).lower() != b'\\recent')), int(f[1][b'RFC822.SIZE'].val)))
+            mt = re.search(rb'MESSAGES (\d+) UIDNEXT (\d+) UIDVALIDITY (\d+)', st)
+            return (sorted(items), mt.groups() if mt else st[-60:])
+        before = await look()
+        a = wire.Client(srv)
+        await a.start()
+        await a.send(b'a LOGIN u p\r\n')
+        raw = await a.send(b'a EXAMINE INBOX\r\n')
+        if b'a OK' not in raw:
+            part.stat('maildir-ro:examine-failed')
+            return
+        cmds = [b'CHECK', b'NOOP', b'FETCH 1:* (FLAGS)', b'UID FETCH 1:* (BODY[])', b'FETCH 1 (BODY[HEADER])', b'SEARCH ALL', b'UID SEARCH UNSEEN', b'STORE 1 +FLAGS (\\Seen)', b'STORE 1:* FLAGS.SILENT ()',
+                b'EXPUNGE', b'UID EXPUNGE 1:*', b'COPY 1 INBOX2', b'MOVE 1 INBOX2', b'UID MOVE 1:* nosuch', b'STATUS INBOX (MESSAGES UIDNEXT)', b'CHECK', b'IDLE']
+        r.shuffle(cmds)
+        log = case['log'] = []
+        for line in cmds[:r.randint(3, 8)] + [b'CHECK', b'NOOP', b'CLOSE']:
+            if a.task.done():
+                break
+            out = await a.send(b'a ' + line + b'\r\n')
+            if line == b'IDLE':
+                out += await a.send(b'DONE\r\n')
+            log.append([line.decode(), out[-50:].decode('latin1')])
+            exp = [l for l in out.split(b'\r\n') if l.endswith(b' EXPUNGE')]
+            after = await look()
+            part.stat('maildir-ro:command')
+            if exp:
+                part.violation('monitor', f'maildir {layout}: {line!r} in a read-only selection is answered with {exp}: nothing left the mailbox', case, signature='md-ro-expunge-told')
+            if after != before:
+                part.violation('monitor', f'maildir {layout}: {line!r} issued in a read-only selection changed the mailbox as another connection sees it: {before} -> {after} '
+                               f'(delivered by a foreign writer: {delivered})', case, signature='md-ro-frame')
+                before = after
+        part.case(key='md-ro:' + layout + repr(delivered)[:80] + repr([l[0] for l in log]), nontrivial=True, sample=dict(layout=layout, delivered=delivered, commands=[l[0] for l in log]))
+        await a.eof()
+    finally:
+        backends.rmtree(base)
+
+
+def md_worker(job):
+    seed, n = job
+    r = random.Random(seed)
+    part = Part()
+    for k in range(n):
+        with guarded(part, 'C12 maildir read-only', dict(scenario='maildir-readonly', seed=seed, k=k)):
+            asyncio.run(maildir_readonly(part, r))
+    return part.result()
+
+
 CORPUS = [
     # D18: an EXAMINE session APPENDs to its own mailbox; the next read-write SELECT must get the \Recent
     dict(nsess=2, program=[['select', 0, 0, True], ['append', 0, 0, [], 1, 0, 0], ['noop', 0], ['select', 1, 0, False], ['noop', 1], ['noop', 0]]),
@@ -182,6 +283,7 @@ def run(ctx):
     ncases = ctx.budget(14, 300)
     jobs = [(ctx.seed * 1000 + 200 + k, ncases, CORPUS if k == 0 else []) for k in range(nw)]
     ctx.pmap(worker, jobs)
+    ctx.pmap(md_worker, [(ctx.seed * 1000 + 250 + k, ctx.budget(2, 40)) for k in range(nw)])
 
 
 def replay(case):
@@ -189,6 +291,10 @@ def replay(case):
     case = case.get('case', case)
     if case.get('scenario') == 'demo-trash':
         asyncio.run(backend_readonly(part))
+    elif case.get('scenario') == 'maildir-readonly':
+        print(json.dumps(case, indent=1)[:3000])
+        print('re-run the check with the same VERIF_SEED to reproduce')
+        return 0
     else:
         dumps = []
         ext, outs, final = asyncio.run(l3.run_real(case['nsess'], case['program'], dump_each=dumps))
